@@ -3,7 +3,7 @@
 (* driver against the reference target is accepted iff it is a behaviour of this specification.                  *)
 (* One state per consumed event; Step is total: it yields the next model state or the name of the violated        *)
 (* clause ("Cxx:<clause>" = the implementation broke the contract, "MACHINERY:<what>" = the harness did).          *)
-EXTENDS EipTarget, LogixView, IdentityView, TLCExt, Json, IOUtils
+EXTENDS EipTarget, LogixView, IdentityView, SlcTarget, TLCExt, Json, IOUtils
 
 TraceLog == JsonDeserialize(IOEnv.TRACE_FILE)
 NTraces  == Len(TraceLog)
@@ -37,6 +37,10 @@ InitModel(cfg) ==
       everFault |-> FALSE,
       closedOnce |-> FALSE,
       texts    |-> Opt(cfg, "status_texts", <<>>),
+      slc      |-> Opt(cfg, "slc", <<>>),
+      hasslc   |-> Has(cfg, "slc"),
+      slcPre   |-> Opt(cfg, "slc", <<>>),
+      slcIdx   |-> 0,
       lx       |-> LxInit(cfg) ]
 
 Good(m2)   == [m |-> m2, fail |-> ""]
@@ -70,6 +74,63 @@ CheckGeneric(it, kind, viaUcs, svc, segs, data, routeSegs) ==
               IF r.ok /\ SegsEq(r.segs, it.routesegs) THEN "" ELSE "C14:route"
 
 (* ------------------------------------------------------------------------------------------------------------ *)
+(* SLC (C18): the k-th PCCC request of a read / write call against the k-th address of the call.                    *)
+SlcEncWords(ty, v) ==
+    CASE ty \in {"N", "B", "S", "I", "O", "T", "C"} -> IF IsI(v) /\ FitsSigned(v.i, 2) THEN <<U16(BigToLE(v.i, 2), 1)>> ELSE <<>>
+      [] ty = "L" -> IF IsI(v) /\ FitsSigned(v.i, 4) THEN LET b == BigToLE(v.i, 4) IN <<U16(b, 1), U16(b, 3)>> ELSE <<>>
+      [] ty = "F" -> IF IsF(v) \/ IsFS(v) THEN LET r == F32Enc(v) IN IF r.ok THEN <<U16(r.bytes, 1), U16(r.bytes, 3)>> ELSE <<>> ELSE <<>>
+SlcValueWords(a) ==
+    IF a.count = 1 THEN SlcEncWords(a.ftype, a.value)
+    ELSE IF ~IsL(a.value) \/ Len(a.value.l) < a.count THEN <<>>
+    ELSE FlattenSeq([j \in 1..a.count |-> SlcEncWords(a.ftype, a.value.l[j])])
+SlcTxClause(m, q, kind) ==
+    LET items == m.call.intent.items  k == m.slcIdx + 1 IN
+    IF kind # "unit" THEN "C18:transport"
+    ELSE IF k > Len(items) THEN "C18:extra-request"
+    ELSE LET a == items[k]  ew == ElemWords(a.ftype) IN
+    IF a.valid = 0 THEN "C18:accepted-invalid"
+    ELSE IF q.cmd # 15 \/ q.fnc # (IF m.call.api = "read" THEN 162 ELSE 171) THEN "C18:function"
+    ELSE IF q.file # a.file \/ q.ftype # TypeCode(a.ftype) THEN "C18:file"
+    ELSE IF q.elem # a.elem THEN "C18:element"
+    ELSE IF q.sub # a.pos THEN "C18:sub-element"
+    ELSE IF m.call.api = "read" THEN (IF q.size # 2 * ew * a.count THEN "C18:size" ELSE "")
+    ELSE IF a.bit >= 0 THEN
+         (IF q.size # 2 THEN "C18:size"
+          ELSE IF Len(q.rest) # 4 THEN "C18:data"
+          ELSE IF U16(q.rest, 1) # 2 ^ a.bit THEN "C18:mask+C18:bit"
+          ELSE IF U16(q.rest, 3) # (IF Truthy(a.value) THEN 2 ^ a.bit ELSE 0) THEN "C18:data" ELSE "")
+    ELSE IF q.size # 2 * ew * a.count THEN "C18:size"
+    ELSE IF Len(q.rest) # 2 + q.size THEN "C18:data"
+    ELSE IF U16(q.rest, 1) # 65535 THEN "C18:mask"
+    ELSE IF [j \in 1..(ew * a.count) |-> U16(q.rest, 1 + 2 * j)] # SlcValueWords(a) THEN "C18:data" ELSE ""
+
+SlcApply(tab, a) ==
+    LET f == FileOf(tab, a.file)  ew == ElemWords(f.type)  w0 == a.elem * ew + a.pos IN
+    IF a.bit >= 0 THEN SetWords(tab, a.file, [i \in 1..Len(f.words) |-> IF i = w0 + 1
+                                               THEN (IF Truthy(a.value) THEN WordOr(f.words[i], 2 ^ a.bit) ELSE WordAnd(f.words[i], 65535 - 2 ^ a.bit)) ELSE f.words[i]])
+    ELSE LET ws == SlcValueWords(a) IN SetWords(tab, a.file, [i \in 1..Len(f.words) |-> IF i > w0 /\ i <= w0 + Len(ws) THEN ws[i - w0] ELSE f.words[i]])
+RECURSIVE SlcApplyAll(_, _, _, _)
+SlcApplyAll(tab, items, tgs, i) ==
+    IF i > Len(items) THEN tab
+    ELSE SlcApplyAll(IF items[i].valid = 1 /\ tgs[i].truthy = 1 THEN SlcApply(tab, items[i]) ELSE tab, items, tgs, i + 1)
+
+SlcRet(m, ev) ==
+    LET items == m.call.intent.items  n == Len(items)  tgs == ev.result.tags
+        anyInvalid == \E i \in 1..n : items[i].valid = 0 IN
+    IF anyInvalid THEN                                                   \* an address outside the grammar / ranges: RequestError, nothing sent
+        (IF ev.outcome = "exc" /\ ev.cls = "RequestError" THEN "" ELSE IF ev.outcome = "exc" THEN "C18:wrong-exception" ELSE "C18:accepted-invalid")
+    ELSE IF ev.outcome # "value" THEN (IF ev.faulted = 1 THEN "" ELSE "C18:exception")
+    ELSE IF Len(tgs) # n THEN "C18:count"
+    ELSE IF m.call.api = "read" THEN
+         LET cs == [i \in 1..n |-> LET e == SlcExpectRead(m.slc, items[i]) IN
+                        IF e.cls = "absent" THEN (IF tgs[i].truthy = 1 THEN "C18:accepted-invalid" ELSE "")
+                        ELSE IF tgs[i].truthy # 1 THEN "C18:readback"
+                        ELSE IF TermEq(tgs[i].value, e.val) THEN "" ELSE IF items[i].bit >= 0 THEN "C18:bit+C18:readback" ELSE "C18:data+C18:readback"]
+         IN IF \E i \in 1..n : cs[i] # "" THEN cs[CHOOSE i \in 1..n : cs[i] # ""] ELSE ""
+    ELSE IF \E i \in 1..n : SlcExpectRead(m.slcPre, items[i]).cls = "valid" /\ tgs[i].truthy # 1 /\ (items[i].bit >= 0 \/ SlcValueWords(items[i]) # <<>>) THEN "C18:write-failed"
+    ELSE IF SlcApplyAll(m.slcPre, items, tgs, 1) # m.slc THEN "C18:outside"
+    ELSE ""
+
 (* Objects behind the message router.  Returns [fail, reply, m]                                                   *)
 ObjR(fail, reply, m) == [fail |-> fail, reply |-> reply, m |-> m]
 
@@ -88,6 +149,12 @@ Dispatch(m, svc, segs, data, cap, choice, kind, viaUcs, routeSegs) ==
     ELSE IF LxHandles(m.lx, svc, segs) THEN
         LET r == LxService(m.lx, svc, segs, data, cap, choice, m.call) IN
         ObjR(r.fail, r.reply, [m1 EXCEPT !.lx = r.lx])
+    ELSE IF cls = 103 /\ inst = 1 /\ svc = 75 /\ m.hasslc THEN
+        LET x == PcccExec(m.slc, data)
+            c == IF m.call.api \in {"read", "write"} /\ m.kind = "slc" THEN SlcTxClause(m, x.q, kind) ELSE "" IN
+        IF ~x.ok THEN ObjR("C18:malformed-request", <<>>, m)
+        ELSE IF c # "" THEN ObjR(c, <<>>, m)
+        ELSE ObjR("", MRReply(svc, 0, <<>>, x.reply), [m1 EXCEPT !.slc = x.tab, !.slcIdx = @ + 1])
     ELSE IF cls = 1 /\ inst = 1 /\ svc = 1 /\ ~Has(m.ident, "none") THEN
         ObjR("", MRReply(svc, 0, <<>>, IdentityCore(m.ident)), [m1 EXCEPT !.last = [k |-> "identity"]])
     ELSE IF cls = 139 /\ inst = 1 /\ svc = 3 /\ m.hasclock THEN
@@ -276,6 +343,8 @@ RetStep(m, ev) ==
               IF tg.truthy # 1 \/ ~IsD(tg.value) THEN (IF TimeInRange(m.clock) THEN Bad(m, "C14:time-roundtrip") ELSE Good(m))
               ELSE LET us == DictGet(tg.value.d, <<109, 105, 99, 114, 111, 115, 101, 99, 111, 110, 100, 115>>) IN
                    IF us.ok /\ us.v = MkI(LEToBig(m.clock, FALSE)) THEN Good(m) ELSE Bad(m, "C14:time-roundtrip"))
+    ELSE IF m.kind = "slc" /\ api \in {"read", "write"} THEN
+        LET c == SlcRet(m, ev) IN IF c = "" THEN Good(m) ELSE Bad(m, c)
     ELSE LET r == LxRet(m.lx, m.call, ev) IN
          IF r.fail # "" THEN Bad(m, r.fail) ELSE Good([m EXCEPT !.lx = r.lx])
 
@@ -283,6 +352,7 @@ RetStep(m, ev) ==
 Step(m, ev) ==
     CASE ev.k = "call" ->
            Good([m EXCEPT !.call = [api |-> ev.api, intent |-> ev.intent], !.nIntent = 0, !.last = [k |-> "none"],
+                          !.slcPre = m.slc, !.slcIdx = 0,
                           !.inClose = ev.api \in {"close", "exit"}, !.closeFault = FALSE,
                           !.lx = LxCall(m.lx, ev)])
       [] ev.k = "socknew" -> Good(m)
